@@ -325,7 +325,7 @@ def run_dcsession(spec, rec: Recorder):
                 if i % 40 == 39:
                     cache = dpapi_ng.KeyCache()  # a new process, at another time (small and large L1 / L2 indices alike)
                     l0 = rng.choice([361, 362, 400])
-                    now = (l0, rng.choice([0, 1, 2, 5, 17, 30, 31]), rng.choice([0, 7, 20, 30, 31]))
+                    now = (l0, rng.choice([0, 1, 2, 5, 5, 17, 30, 31]), rng.choice([7, 20, 30, 31, 31]))
                     cfg.now = now
                     made.clear()  # (blobs of the previous epoch may lie in this DC's future: it would rightly refuse their keys)
                 cfg.l2_key_absent_at_31 = rng.random() < 0.3
@@ -333,6 +333,32 @@ def run_dcsession(spec, rec: Recorder):
                 sid = sids[0] if i % 5 else sids[1]
                 r = rng.random()
                 wit = {"kind": "session-dc", "shard": spec["name"], "op": i, "async": use_async, "dc_now": list(cfg.now)}
+                if i % 40 in (1, 2, 3, 4) and cfg.now[2] >= 2:
+                    # a fixed pattern at the start of every epoch (not left to chance): the cache first learns a seed at
+                    # (L1, s2), then is asked - through each API - for blobs at the same L1 and a HIGHER L2, which that seed
+                    # does not cover; small L1 values with larger L2 values are included (indices that happen to compare alike)
+                    step = i % 40
+                    l1p = cfg.now[1]
+                    s2 = rng.randrange(0, cfg.now[2] - 1)
+                    if l1p <= cfg.now[2] - 2:
+                        s2 = rng.randrange(l1p, cfg.now[2] - 1)  # a seed whose L2 index is not below its L1 index
+                        rec.count("dc_session_pattern_l2_ge_l1")
+                    b2 = rng.randrange(s2 + 1, cfg.now[2] + 1)
+                    pos = (l0, l1p, s2 if step == 1 else min(cfg.now[2], b2 + (step - 2)))
+                    pt = b"pattern-%d" % i
+                    blob = online.ref_blob(rng, rkid, rk, sids[0], pos, "nonce", pt, in_envelope=True, domain="c01.test")
+                    try:
+                        fn = dpapi_ng.async_ncrypt_unprotect_secret if use_async else dpapi_ng.ncrypt_unprotect_secret
+                        got = fn(blob, cache=cache, **kw)
+                        got = loop.run_until_complete(got) if use_async else got
+                        rec.count("session_unprotects")
+                        rec.count("dc_session_pattern_unprotects")
+                        if got != pt:
+                            rec.violation("roundtrip-mismatch", f"dc session op {i}: unprotect at {pos} returned different bytes", dict(wit, blob_position=list(pos)))
+                    except Exception as e:
+                        rec.violation("unprotect-raised", f"dc session op {i} ({'async' if use_async else 'sync'}) at {pos} after a seed at a lower L2 of the same L1: {type(e).__name__}: {e}", dict(wit, blob_position=list(pos)))
+                    rec.case(("dcsession-pattern", spec["name"], i), nontrivial=True)
+                    continue
                 try:
                     if r < 0.25:
                         pt = b"dcs-%d" % i
